@@ -103,11 +103,16 @@ func isIntegerType(t types.Type) bool {
 }
 
 func panicSites(c *Check, fn *ssa.Function) []panicSite {
+	return panicSitesF(c, fn, func(ins ssa.Instruction) bool { return !c.P.IsClone(ins) })
+}
+
+// panicSitesF: the panic sources among the instructions of fn's (normalised) body selected by keep.
+func panicSitesF(c *Check, fn *ssa.Function, keep func(ssa.Instruction) bool) []panicSite {
 	var out []panicSite
 	x := c.P.Ex(fn)
 	for _, b := range fn.Blocks {
 		for _, ins := range b.Instrs {
-			if c.P.IsClone(ins) {
+			if !keep(ins) {
 				continue
 			}
 			switch v := ins.(type) {
@@ -453,6 +458,57 @@ func c15(c *Check) {
 					}
 				}
 			}
+			if hit == nil && c.P.Absorbed(f) {
+				// the site sits in a helper that exists only inlined: read it where it was inlined, in the terms of each
+				// function that owns a copy (an extracted helper names the owner's `msg.From` as its own parameter)
+				matched, all := 0, true
+				for _, o := range c.P.OwnerFns(f) {
+					if o == f {
+						continue
+					}
+					for _, cs := range panicSitesF(c, o, func(ins ssa.Instruction) bool {
+						return c.P.IsClone(ins) && c.P.OriginFn(ins) == f && ins.Pos() == s.Pos
+					}) {
+						if cs.Kind != s.Kind {
+							continue
+						}
+						var oh *audit
+						for _, a := range audits {
+							if a.fn == funcName(o) && a.kind == cs.Kind && strings.Contains(cs.What, a.what) {
+								oh = a
+								break
+							}
+						}
+						oconstruct := fmt.Sprintf("%s|%s|%s", funcName(o), cs.Kind, trunc(cs.What))
+						if oh == nil {
+							all = false
+							c.Bad("C15/panic-source", oconstruct, cs.Pos, fmt.Sprintf("unaudited panic source (%s) reachable outside transaction recovery via %s (in helper %s)", cs.Kind, pathTo(reach, o), funcName(f)))
+							matched++
+							continue
+						}
+						matched++
+						oh.hits++
+						ok, why := true, ""
+						for _, n := range oh.needs {
+							if !hasGuardQuiet(c, n.fn, n.guard) {
+								ok = false
+								why += fmt.Sprintf("validator %s lacks the rejecting guard %s; ", n.fn, n.guard)
+							}
+						}
+						if oh.check != nil {
+							if o2, w := oh.check(c); !o2 {
+								ok = false
+								why += w
+							}
+						}
+						c.Req(ok, "C15/panic-source", oconstruct, cs.Pos, "audited: "+oh.reason+" (site in the extracted helper "+funcName(f)+")", fmt.Sprintf("panic source (%s) whose discharge (%s) no longer holds: %s", cs.Kind, oh.reason, why))
+					}
+				}
+				_ = all
+				if matched > 0 {
+					continue
+				}
+			}
 			if hit == nil {
 				path := pathTo(reach, f)
 				c.Bad("C15/panic-source", construct, s.Pos, fmt.Sprintf("unaudited panic source (%s) reachable outside transaction recovery via %s", s.Kind, path))
@@ -517,6 +573,18 @@ func ownedBy(c *Check, f *ssa.Function, audited string) bool {
 	if funcName(f) == audited {
 		return true
 	}
+	// the audited function no longer exists (folded by hand into its caller): a site in the same package carries the audit
+	if !c.fnExists(audited) {
+		if i := strings.LastIndex(audited, "."); i > 0 && strings.Contains(audited[:i], "/") {
+			pkg := audited[:i]
+			if j := strings.Index(pkg, ".("); j > 0 {
+				pkg = pkg[:j]
+			}
+			if strings.HasPrefix(funcName(f), pkg+".") {
+				return true
+			}
+		}
+	}
 	if c.P.Absorbed(f) {
 		for _, o := range c.P.Owners(f) {
 			if o == audited {
@@ -525,4 +593,17 @@ func ownedBy(c *Check, f *ssa.Function, audited string) bool {
 		}
 	}
 	return false
+}
+
+// fnExists: some function of the program has this canonical name.
+func (c *Check) fnExists(name string) bool {
+	if c.fnNames == nil {
+		c.fnNames = map[string]bool{}
+		for fn := range c.P.AllFuncs {
+			if inTeleport(fn) {
+				c.fnNames[funcName(fn)] = true
+			}
+		}
+	}
+	return c.fnNames[name]
 }
